@@ -213,6 +213,10 @@ def judge_times(sc, st, res, metas, V):
             elif t == 'connection':
                 sel.command(meta)
                 selected = sel.selected
+            elif t == 'other':
+                # a listing outside the reference's matcher subset: its lines are not judged, but it does lie between live messages
+                if any(o.kind == 'msg' for o in outs):
+                    unchecked_next = True
             elif t == 'list':
                 shown = [o for o in outs if o.kind == 'msg']
                 if shown:
